@@ -1,12 +1,16 @@
 (* C02 — read-based phasing of error-free reads reproduces the true haplotypes.
    Theorems about the weighted MEC objective the exact solver optimises (single individual, trusted
-   heterozygous genotypes).  Composition (stated, not re-proved here): the solver returns a
-   minimum-cost (bipartition, haplotypes) — property C01; the reads handed to it carry the true
+   heterozygous genotypes), and (C02_solver_reproduces_truth) their composition with the model of the
+   PedMEC dynamic programme of C01: on error-free reads the DP's own witness and the alleles read off
+   its backtrace are the truth up to a swap per read-connected component.  Composition with the rest
+   of the pipeline (stated, not re-proved here): the reads handed to it carry the true
    alleles — property C06 (validated per run through the trace hook); phase sets are the
    read-connected components — property C03; the writer copies the haplotypes to GT — C04/C09. *)
 From Coq Require Import ZArith List Bool Arith Relations.
 From WH.Model Require Import UnionFind UFSpec Mec.
 From WH.Proofs Require Import MecProofs.
+From WH.Model Require PedMEC.
+From WH.Proofs Require PedMECtoMec.
 Import ListNotations.
 
 (* the true bipartition with the true haplotypes costs nothing *)
@@ -44,6 +48,36 @@ Theorem C02_optimal_is_truth_up_to_component_flip :
     (same_at h truth c /\ same_at h truth c') \/ (swapped_at h truth c /\ swapped_at h truth c').
 Proof. exact optimal_is_truth_up_to_component_flip. Qed.
 Print Assumptions C02_optimal_is_truth_up_to_component_flip.
+
+(* the solver model of C01 (PedMEC.dp_witness / get_alleles: the column-wise DP with backtrace that
+   the correspondence check of C01 ties to the C++ core) on a single individual with all-heterozygous
+   trusted genotypes and error-free reads: the DP finds cost 0, decides both alleles of every covered
+   column (no tie code 3), and the super reads it emits equal the truth or the truth with both
+   haplotypes exchanged, consistently on every read-connected component.  `single n rs` is the dense
+   PedMEC instance (n columns, reads as start column + per-column option entries), `mec_reads` its
+   sparse (column, allele, weight) view used by the theorems above. *)
+Theorem C02_solver_reproduces_truth :
+  forall (n : nat) (rs : list PedMEC.read) (truth : haps) (origin : list bool),
+  let I := PedMECtoMec.single n rs in
+  let reads := PedMECtoMec.mec_reads I in
+  PedMEC.wf I = true ->
+  (forall r, In r reads -> positive r) ->
+  error_free truth origin reads = true ->
+  (forall c, (exists r, In r reads /\ covers r c) -> het truth c) ->
+  exists (beta : list bool) (tau : list nat),
+    let h := PedMECtoMec.witness_haps I beta in
+    PedMEC.dp_witness I = Some (beta, tau) /\
+    PedMEC.dp_cost I = PedMEC.Cost (Some 0) /\
+    cost h beta reads = 0 /\
+    (forall c, (exists r, In r reads /\ covers r c) ->
+       exists k0 k1 q,
+         PedMEC.get_alleles I c (PedMEC.restrict (PedMEC.active I c) beta) 0 = Some [(k0, k1, q)] /\
+         k0 <> 3 /\ k1 <> 3) /\
+    (forall c c', (exists r, In r reads /\ covers r c) -> (exists r, In r reads /\ covers r c') ->
+       connected reads c c' ->
+       (same_at h truth c /\ same_at h truth c') \/ (swapped_at h truth c /\ swapped_at h truth c')).
+Proof. exact PedMECtoMec.solver_reproduces_truth_std. Qed.
+Print Assumptions C02_solver_reproduces_truth.
 
 (* the evaluator applied to the output VCF (phase set id, written pair, true pair per phased call)
    accepts only outputs in which every phase set carries the truth or its swap as a whole *)
